@@ -141,6 +141,8 @@ def cli_scope(res, pid, rng, tier):
                 vals = [rng.choice(hb_vals), rng.choice(hb_vals)]
             if name in ("input", "output") and rng.random() < 0.08:
                 vals = ["", ""]
+            if name == "salt" and rng.random() < 0.3:
+                vals = ["", rng.choice(["", "s2"])]         # an empty salt is a salt
             rng.shuffle(vals)
             assign[name] = (src, vals)
         cases.append(assign)
@@ -167,6 +169,8 @@ def cli_scope(res, pid, rng, tier):
                 bad = "undo without salt reached the library"
             elif f["dump"] != "none" and f["ip"] != "true":
                 bad = "map dump without IP anonymization reached the library"
+            elif has("salt") and f["salt"] != show_opt_s(_effective(line, "salt")):
+                bad = "the salt given by the user (possibly empty) is not the salt passed on"
             elif f["b4"] != f["b6"] or not f["b4"].isdigit() or not 0 <= int(f["b4"]) <= 32:
                 bad = "host bits outside 0-32 or different for the two families"
             elif not has("hostbits") and f["b4"] != "8":
@@ -183,6 +187,15 @@ def cli_scope(res, pid, rng, tier):
             fails.append({"kind": "an anonymization option was given but nothing was done", "argv": meta["argv"], "config_file": meta["config_file"]})
         elif out.startswith("err"):
             fails.append({"kind": "main raised something other than a usage error", "argv": meta["argv"], "config_file": meta["config_file"], "outcome": out})
+    # every number of host bits 0..32 is accepted, from the command line and from the config file; 33 and -1 are not
+    for hb in list(range(0, 33)) + [33, -1]:
+        for src in "cf":
+            argv, cfg, line = build({"input": ("c", ["in"]), "output": ("c", ["out"]), "ips": ("c", ["x"]), "salt": ("c", ["s1"]), "hostbits": (src, [str(hb)])})
+            o_ = impl_outcome(argv, cfg)
+            res.evaluations += 1
+            if (0 <= hb <= 32) != o_.startswith("call") or (o_.startswith("call") and "b4=%d b6=%d" % (hb, hb) not in o_):
+                fails.append({"kind": "preserved host bits: %d is %s" % (hb, "rejected or not applied" if 0 <= hb <= 32 else "accepted"),
+                              "argv": argv, "config_file": cfg, "outcome": o_})
     # same options on the command line and in the config file behave identically
     for _ in range(60):
         assign = {}
